@@ -688,6 +688,15 @@ class Interp:
         if isinstance(recv, str) and len(recv) == 1 and not n["args"] and m in ("to_uppercase", "to_lowercase") and str(n["recv"].get("ty", "")).lstrip("&") == "char":
             # char::to_uppercase is an iterator over one or more characters (`ß` -> `S`, `S`)
             return list(recv.upper() if m == "to_uppercase" else recv.lower())
+        if isinstance(recv, list) and m in ("join", "concat") and len(n["args"]) <= 1 and all(isinstance(x, str) for x in recv):
+            sep_ = self.ev(n["args"][0], env) if n["args"] else ""
+            if isinstance(sep_, str):
+                return sep_.join(recv)
+        if isinstance(recv, list) and not n["args"] and m == "try_into" and all(isinstance(x, int) and not isinstance(x, bool) for x in recv):
+            # &[u8] -> [u8; N]: succeeds exactly when the lengths agree (N read off the type of the call)
+            mt_ = re.search(r"\[u8; (\d+)\]", str(n.get("ty", "")))
+            if mt_:
+                return V("Result::Ok", [list(recv)]) if len(recv) == int(mt_.group(1)) else V("Result::Err", [Opaque("TryFromSliceError")])
         if isinstance(recv, list) and not n["args"] and m == "next" and all(isinstance(x, str) and len(x) == 1 for x in recv):
             return some(recv.pop(0)) if recv else NONE          # an iterator over characters held in a local
         if isinstance(recv, list) and not n["args"] and m == "as_str" and all(isinstance(x, str) and len(x) == 1 for x in recv):
@@ -996,6 +1005,10 @@ class Interp:
                 return some(recv.args[0]) if present else NONE
             if m == "unwrap_or_default" and not n["args"] and present:
                 return recv.args[0]
+            if m == "unwrap_or_default" and not n["args"] and not present:
+                d_ = default_of_type(n.get("ty"), render(n))
+                if not isinstance(d_, Opaque):
+                    return d_
         if m in ("map", "and_then", "filter", "is_some_and", "is_none_or", "map_or") and isinstance(recv, V) and recv.name in ("Option::Some", "Option::None"):
             if m == "is_none_or":
                 return True if recv == NONE else self._bool(self.apply(self.ev(n["args"][0], env), [recv.args[0]]), n)
@@ -1349,6 +1362,29 @@ class Interp:
                 return a
             if short(n.get("callee", ""), 2) == "From::from" and "Box<" in str(n.get("ty", "")) and not isinstance(a, Opaque):
                 return a        # Box::from(x): the box is its content
+        if str(n.get("callee", "")).endswith(("mem::take", "mem::replace")) and n["args"]:
+            # std::mem::take(&mut place) / replace(&mut place, v): the place gets the default / v, the old value returns
+            r = n["args"][0]
+            while r["k"] in ("Ref",) or (r["k"] == "Un" and r["op"] == "*"):
+                r = r["e"]
+            take = str(n["callee"]).endswith("mem::take")
+            newv = default_of_type(str(r.get("ty", "")), render(r)) if take else self.ev(n["args"][1], env)
+            if not (take and isinstance(newv, Opaque)):
+                if r["k"] == "Path" and r.get("rk") == "Local" and r["res"] in env:
+                    old_ = env[r["res"]]
+                    env[r["res"]] = newv
+                    return old_
+                if r["k"] == "Field":
+                    base = self.ev(r["e"], env)
+                    if isinstance(base, dict) and r["name"] in base:
+                        old_ = base[r["name"]]
+                        base[r["name"]] = newv
+                        return old_
+        if len(n["args"]) == 1 and str(n.get("callee", "")).rsplit("::", 1)[-1] in ("from_le_bytes", "from_be_bytes", "from_ne_bytes"):
+            a = self.ev(n["args"][0], env)
+            if isinstance(a, list) and all(isinstance(x, int) and 0 <= x < 256 for x in a):
+                big = str(n["callee"]).endswith("from_be_bytes")
+                return int.from_bytes(bytes(a), "big" if big else "little", signed=str(n.get("ty", "")).startswith("i"))
         if len(n["args"]) == 1 and short(n.get("callee", ""), 2) in ("Box::new", "Rc::new", "Arc::new", "Box::from", "Rc::from", "RefCell::new", "Cell::new"):
             return self.ev(n["args"][0], env)
         f = n["f"]
